@@ -41,7 +41,7 @@ static Fields gen(Tape &t) {
     else if (o.kind == 'T') f.kv.emplace_back("op." + std::to_string(k), "T:" + std::to_string(o.i) + ":" + std::to_string(o.arg));
     else f.kv.emplace_back("op." + std::to_string(k), o.str());
   }
-  // in a quarter of the transcripts the k-th allocation of *every* step fails once, identically for both APIs: error
+  // in a quarter of the transcripts the k-th allocation of every other step fails once, identically for both APIs: error
   // handling paths must agree between the character types as well
   f.seti("fault", t.chance(3, 4) ? 0 : t.range(1, 8));
   return f;
@@ -86,7 +86,10 @@ template <class A> static std::vector<std::string> transcript(const std::vector<
   for (auto &op : ops) {
     std::string rec = std::string(1, op.kind) + ": ";
     L.fail_at = 0;
-    if (fault > 0) { L.req = 0; L.fail_at = (uint64_t)fault; }
+    // every other step from the third on (the two leading parses set the scene)
+    size_t stepIndex = tr.size();
+    bool planned = fault > 0 && stepIndex >= 2 && ((stepIndex + (size_t)fault) % 2 == 0);
+    if (planned) { L.req = 0; L.fail_at = (uint64_t)fault; }
     int n = w.size();
     auto ix = [&](int v) { return n ? ((v % n) + n) % n : 0; };
     switch (op.kind) {
@@ -205,7 +208,7 @@ template <class A> static std::vector<std::string> transcript(const std::vector<
       }
       default: break;
     }
-    if (fault > 0 && L.req >= (uint64_t)fault) { rec += " [allocation " + std::to_string(fault) + " failed]"; (*groups)["steps_with_failed_allocation"]++; }
+    if (planned && L.req >= (uint64_t)fault) { rec += " [allocation " + std::to_string(fault) + " failed]"; (*groups)["steps_with_failed_allocation"]++; }
     L.fail_at = 0;
     tr.push_back(rec);
     stats().sub_evaluations++;
